@@ -71,6 +71,8 @@ def known_class(text, form, kw):
         return "inline-symbol-name"
     if is_keyword(text, kw) and not re.fullmatch(r"\w+", text):
         return "keyword-nonword"
+    if re.search(r"\\[\\'\"nt]", text):
+        return "backslash-escape"
     return None
 
 
